@@ -246,7 +246,11 @@ def search(res, tier, boost=False):
         # list objects reordered in place between the calls (time-slab order gives the block lower-triangular form)
         SL = ops.SL[False]
         reps = -(-10 // len(elems))
-        lt, lr = list(elems) * reps, list(elems) * reps
+        # (square, more test than trial elements - the estimators' fine-test x coarse-trial matrices -, or the reverse)
+        shape = ('tall', 'wide', 'square')[(mi + res.seed) % 3]
+        lt, lr = list(elems) * (reps + (shape == 'tall')), list(elems) * (reps + (shape == 'wide'))
+        if shape == 'tall':
+            lt += [rng.choice(elems)]
         rng.shuffle(lt)
         rng.shuffle(lr)
         for step in ('shuffled', 'time-ordered', 'reversed'):
